@@ -96,12 +96,12 @@ func (fa *FuncAn) condSummary() string {
 
 // CallSpec requires that calls to Callee inside a function have a given shape.
 type CallSpec struct {
-	Name   string
-	Desc   string
-	Callee string // regexp on callee name
-	Want   string // regexp on the full rendered call
-	Min    int    // minimum number of matching call sites (default 1)
-	AllMustMatch bool // every call to Callee must match Want (default: at least Min do)
+	Name         string
+	Desc         string
+	Callee       string // regexp on callee name
+	Want         string // regexp on the full rendered call
+	Min          int    // minimum number of matching call sites (default 1)
+	AllMustMatch bool   // every call to Callee must match Want (default: at least Min do)
 }
 
 // checkCalls verifies the shape (argument provenance) of call sites in fn.
